@@ -17,7 +17,9 @@ CLAIM = (
     "for every pair of declarations of one path (static / output / volatile output, by the same or by two "
     "different creators) made through the real declare_static_files / amend_step, a rejection happens in "
     "the order D1;D2 if and only if it happens in the order D2;D1, and at no point two attached file nodes "
-    "or two roles exist for the path.  The string side (static trees own what is beneath them, for all "
+    "or two roles exist for the path; define_step rejects an output or volatile output that an attached "
+    "step's registered pattern matches, whether the definition is fresh or recycles a detached step (pools of "
+    "patterns and paths, harness/c08.py).  The string side (static trees own what is beneath them, for all "
     "spellings) is C18; the text of the messages is C02."
 )
 OUTSIDE = [
@@ -332,8 +334,24 @@ def o8_3(tier):
     return res
 
 
+def o8_4(tier):
+    import stepup.core.workflow as wfm
+    from vf import xh
+
+    res = ObResult()
+    pre = "0 <= gi < 4 and 0 <= oi < 6 and 0 <= oj < 6"
+    if tier == "quick":
+        pre += " and not second and oj == 0"
+    res.bounds = pre + "; pools of 4 patterns / 6 paths (harness/c08.py); one or two declared paths; try_recycle answers arbitrarily"
+    res.encoded += [enc(wfm.Workflow.define_step), enc(wfm.Workflow._raise_if_glob_match)]
+    xh.run_condition(res, "C08", "O8.4", "harness.c08", "define_vs_glob", pre, 300 if tier == "quick" else 2400, what="define_step rejects an output matched by a registered glob, fresh or recycled")
+    res.nontrivial = 1
+    return res
+
+
 OBLIGATIONS = [
     Ob("O8.1", o8_1, "_check_declaration is exact with respect to the claim on the path", weight=3, timeout={"quick": 2400, "thorough": 7200}),
     Ob("O8.3", o8_3, "a path matched by a registered glob pattern cannot be declared as an output or volatile output", weight=2, timeout={"quick": 2400, "thorough": 7200}),
+    Ob("O8.4", o8_4, "define_step: glob-vs-output check applies to fresh and recycled definitions alike", weight=1),
     Ob("O8.2", o8_2, "pairs of declarations of one path: rejected in one order iff rejected in the other", weight=5, timeout={"quick": 3000, "thorough": 7200}),
 ]
